@@ -311,6 +311,14 @@ def run(prop, tier, check=None):
                              "lines": lines, "nw": nws[k % len(nws)], "driver": "random" if k else "default",
                              "seed": seed * 7907 + i * 101 + k, "quanta": QUANTA if k else [1000], "max_steps": 6000,
                              "meta": {"scenario": "session%d" % i, "entry": 0, "confluent": False, "terminates": False}})
+    if prop == "C06":
+        for i, src in enumerate(families.HEAP_PROGRAMS):
+            for k in range(8 if tier == "quick" else 60):
+                reqs.append({"id": "heapprog%d#%d" % (i, k), "group": "heapprog%d" % i, "keep": 6, "rare_max": 4,
+                             "lines": [src], "nw": nws[k % len(nws)], "driver": ("pct" if k % 3 == 2 else "random") if k else "default",
+                             "seed": seed * 7907 + i * 131 + k, "quanta": QUANTA if k else [1000], "max_steps": 6000, "pct_changes": k % 4,
+                             "meta": {"scenario": "heapprog%d" % i, "entry": 0, "confluent": False, "terminates": False,
+                                      "expected_outcome": families.HEAP_PROGRAMS_EXPECT}})
     tracefile = os.path.join(WORK, "trace_%s_%d.ndjson" % (prop, os.getpid()))
     t1 = time.time()
     summaries = run_sim(reqs, tracefile)
@@ -395,6 +403,26 @@ def run(prop, tier, check=None):
 def replay(prop, path):
     r = json.load(open(path))
     s = next((x for x in families.all_families((1, 2, 3, 4)) if x["name"] == r.get("scenario")), None)
+    if s is None and r.get("lines") and str(r.get("scenario", "")).startswith(("heapprog", "session")):
+        # an unscripted session / program: the stored lines under the stored schedule, judged by the state-based rules
+        meta_ = {"scenario": r["scenario"], "entry": 0, "confluent": False, "terminates": False}
+        if r["scenario"].startswith("heapprog"):
+            meta_["expected_outcome"] = families.HEAP_PROGRAMS_EXPECT
+        scriptsfile = os.path.join(WORK, "scripts_replay_%d.json" % os.getpid())
+        json.dump({"scripts": [], "defects": CODE_DEFECTS}, open(scriptsfile, "w"))
+        req = {"id": r["run"], "lines": r["lines"], "nw": r["nw"], "driver": "replay", "schedule": r["schedule"],
+               "quanta": [1000], "meta": meta_}
+        tracefile = os.path.join(WORK, "trace_replay_%d.ndjson" % os.getpid())
+        run_sim([req], tracefile)
+        res, viols = monitor(tracefile, scriptsfile)
+        for f in (tracefile, scriptsfile):
+            if os.path.exists(f):
+                os.remove(f)
+        if any(v["rule"] == r["rule"] for v in viols):
+            print("VIOLATION property=%s replay=%s" % (prop, path))
+            return 1
+        print("replay no longer violates", r["rule"])
+        return 0
     if s is None:
         print("unknown scenario in replay file")
         return 2
